@@ -800,7 +800,8 @@ fn singles(cfg: &Cfg) -> Vec<Vec<B>> {
         v.push(vec![B::RegvalType(r, Base::B1)]);
         v.push(vec![B::RegvalType(r, Base::B2)]);
     }
-    for p in [0u8, 1, 2, 3, 127, 128, 255] {
+    // every value of the one-byte operands (sizes equal to the address size or the offset size included)
+    for p in 0u8..=255 {
         v.push(vec![B::Pick(p)]);
         v.push(vec![B::DerefSize(p)]);
         v.push(vec![B::XderefSize(p)]);
@@ -949,7 +950,7 @@ fn singles_sub() -> Sub {
     Sub::new(
         "single-calls-boundary-parameters",
         count * ncfg,
-        "every builder with boundary parameters alone: all documented simple opcodes; constu/plus_uconst/piece/bit_piece/wasm index/addr over ULEB boundaries (31/32, 127/128, 2^14, 2^32, 2^35, 2^63, 2^64-1); consts/fbreg/breg/implicit_pointer offsets over SLEB boundaries; registers 0-34, 127/128, 2^14, 65535; pick/deref sizes 0-3, 127/128, 255; blocks of 0-16384 bytes; entry_value nested up to 2 deep with inner sizes around 127/128 and 16383/16384; every reference kind to entries before/after; x version x format x address size; DIE, location list and CFI hosts",
+        "every builder with boundary parameters alone: all documented simple opcodes; constu/plus_uconst/piece/bit_piece/wasm index/addr over ULEB boundaries (31/32, 127/128, 2^14, 2^32, 2^35, 2^63, 2^64-1); consts/fbreg/breg/implicit_pointer offsets over SLEB boundaries; registers 0-34, 127/128, 2^14, 65535; every pick index and every deref size 0..=255 (plain, xderef, typed); blocks of 0-16384 bytes; entry_value nested up to 2 deep with inner sizes around 127/128 and 16383/16384; every reference kind to entries before/after; x version x format x address size; DIE, location list and CFI hosts",
         move |ctx, i| {
             let cfg = cfgs[(i % ncfg) as usize];
             let all = singles(&cfg);
